@@ -143,7 +143,7 @@ pub trait IntoExop { spec fn as_exop(&self) -> Exop; fn into(self) -> (r: Exop) 
 
 //@lift name=sasl_bind_req file=src/ldap.rs fn=sasl_bind_req
 //@ ret r
-//@ tail at="Tag::Sequence(Sequence {\n        id: 0,"
+//@ tail last
     proof { tree_lemmas::lemma_trees3(verif_ret->Sequence_0.inner@, 3);
         if creds is Some { tree_lemmas::lemma_trees2(verif_ret->Sequence_0.inner@[2]->Sequence_0.inner@, 2); } else { tree_lemmas::lemma_trees1(verif_ret->Sequence_0.inner@[2]->Sequence_0.inner@, 1); } }
 //@ spec
@@ -379,15 +379,15 @@ pub open spec fn mod_vals(m: Mod) -> Seq<T> { match m { Mod::Add(_, s) => s.valu
     ensures tree(o) == t_os(v.b@), //# C02.add_value_is_an_octet_string_of_the_value
 //@end
 //@lift name=modify::change file=src/ldap.rs block=".map(|m|" as="fn modify_change(m: Mod, any_add_empty: &mut bool) -> (r: Tag)"
-//@ sub "any_add_empty = true;" => "*any_add_empty = true;"
+//@ sub "any_add_empty = " => "*any_add_empty = " count=*
 //@ arg ".map(|val|" => "modify_value_tag"
-//@ insert before "if set.is_empty() && is_add {"
+//@ insert after-let num
                             proof { assert(set.value_trees() =~= mod_vals(m)); }
 //@ insert before "Tag::Sequence(Sequence {\n                                inner: vec![op, part_attr],"
                             proof {
                                 tree_lemmas::lemma_trees2(part_attr->Sequence_0.inner@, 2);
                             }
-//@ tail at="Tag::Sequence(Sequence {\n                                inner: vec![op, part_attr],"
+//@ tail last
                             proof { tree_lemmas::lemma_trees2(verif_ret->Sequence_0.inner@, 2); }
 //@ spec
     ensures
@@ -397,9 +397,9 @@ pub open spec fn mod_vals(m: Mod) -> Seq<T> { match m { Mod::Add(_, s) => s.valu
 //@end
 
 //@lift name=add::attribute file=src/ldap.rs block=".map(|(name, vals)|" as="fn add_attribute(name: AV, vals: HashSet, any_empty: &mut bool) -> (r: Tag)"
-//@ sub "any_empty = true;" => "*any_empty = true;"
+//@ sub "any_empty = " => "*any_empty = " count=*
 //@ arg ".map(|v|" => "add_value_tag"
-//@ tail at="Tag::Sequence(Sequence {\n                                inner: vec!["
+//@ tail last
                             proof { tree_lemmas::lemma_trees2(verif_ret->Sequence_0.inner@, 2); }
 //@ spec
     ensures
